@@ -377,6 +377,7 @@ rfbSetClientColourMapBGR233(rfbClientPtr cl)
     }
     
     scme->type = rfbSetColourMapEntries;
+    scme->pad = 0;
 
     scme->firstColour = Swap16IfLE(0);
     scme->nColours = Swap16IfLE(256);
